@@ -3,6 +3,8 @@ import Fuota.Lemmas.V1Scan
 import Fuota.Lemmas.V1Peel
 import Fuota.Lemmas.V1Monad
 import Fuota.Lemmas.V1Same
+import Fuota.Lemmas.V1Naive
+import Fuota.Lemmas.V1NaiveStart
 /-!
 # C19 — the single-erasure (V1) updaters repair only what parity determines
 
@@ -28,6 +30,12 @@ Models: `Fuota.Naive` (`flash-algo-new/src/update/naive.rs`) and `Fuota.Orig`
   masks its status tables read as.
 * `naive_eq_orig_partial` — the two machines (they differ in how many parity indices they scan) stay in the same
   state on every delivery sequence whose coded indices both scan.
+
+FULL at flash level for the naive model (`Lemmas/V1Slot.lean`, `V1View.lean`, `V1Naive.lean`, `V1NaiveStart.lean`):
+`naive_start_establishes` (start_update establishes the session invariant `NInv`), `naive_handle_segment_refines`
+(`handle_segment` on genuine fragments = `Abs.deliver`, never an error), `complete_iff_peel` /
+`complete_iff_peel_session` (completion is reported exactly when peeling recovers everything).
+`naive_eq_orig_model_partial`: naive side flash-level, original side still mask-level.
 
 `_partial` = proved for the mask-level machine `Fuota.V1.Abs`; the missing hypothesis is the flash-level refinement
 "after the programs of a delivery, `loadStatus` reads the masks of `Abs.deliver`" (a program of `DATA_WRITTEN` at
@@ -445,6 +453,134 @@ theorem naive_eq_orig_partial (n : Nat) (rowOf : Nat → Option Nat) (lenNaive l
     intro p hp; simp [Abs.init] at hp
   have := run_same hs hb pre (fun p hp => hds p (List.IsPrefix.subset hpre hp))
   exact ⟨this.2.2.1, this.2.2.2⟩
+
+/-! ## the naive model refines the mask-level machine (flash level) -/
+
+theorem run_snoc (a : Abs) (ds : List Dlv) (x : Dlv) : a.run (ds ++ [x]) = (a.run ds).deliver x := by
+  induction ds generalizing a with
+  | nil => rfl
+  | cons d ds ih => exact ih (a.deliver d)
+
+theorem abs_eq_init (a : Abs) (h1 : a.fw = 0) (h2 : a.par = 0) : a = Abs.init a.n a.parLen a.rowOf := by
+  cases a; simp only [Abs.init] at *; subst h1; subst h2; rfl
+
+/-- **complete_iff_peel** (naive model, flash level, full).  A fresh naive session (`NInv` with empty masks: what
+    `start_update` leaves) on a device without armed injection, for every image `D`; deliver the genuine fragments with
+    the 1-based indices `idxs` (any order, duplicates, data and coded) and then fragment `j`.  Every call succeeds, and
+    the last one answers `FirmwareComplete` exactly when fragment `j` was not present yet and iterative
+    single-missing-fragment peeling over everything delivered recovers all data fragments — i.e. every set that
+    contains the delivered data fragments and is closed under the delivered rows contains all `n`. -/
+theorem complete_iff_peel (cfg : Naive.Cfg) (u : Naive.Upd) (d : Dev) (a : Abs) (D : Nat → List Nat) (seg : Nat)
+    (I : NInv cfg u d a D seg) (hfw : a.fw = 0) (hpar : a.par = 0) (idxs : List Nat) (j : Nat)
+    (hall : ∀ i ∈ idxs, 1 ≤ i ∧ i ≤ a.n + a.parLen) (hj1 : 1 ≤ j) (hj2 : j ≤ a.n + a.parLen) :
+    ∃ outs u1 d1 out u2 d2,
+      (deliverAll cfg a D seg idxs).run (u, d) = (.ok outs, (u1, d1)) ∧
+      (Naive.handleSegment cfg j (genuine a D seg j)).run (u1, d1) = (.ok out, (u2, d2)) ∧
+      NInv cfg u2 d2 (a.run ((idxs ++ [j]).map (toDlv a.n))) D seg ∧
+      (out = Naive.Outcome.complete ↔
+        (present (a.run (idxs.map (toDlv a.n))) j = false ∧
+          ∀ T, Closed a.n a.parLen a.rowOf (addCoded 0 ((idxs ++ [j]).map (toDlv a.n))) T →
+            Sub (addData 0 ((idxs ++ [j]).map (toDlv a.n))) T → ∀ i, i < a.n → T.testBit i = true)) := by
+  have hinit := abs_eq_init a hfw hpar
+  have hcl : a.step = none := step_none_of_nopar (fun p _ => by rw [hpar]; simp)
+  obtain ⟨outs, u1, d1, hrun1, _, I1, hcl1⟩ := deliverAll_run a idxs u d a I hcl rfl rfl rfl hall
+  obtain ⟨e1, e2, e3, _⟩ := run_fields a (idxs.map (toDlv a.n))
+  obtain ⟨out, u2, d2, hrun2, I2, _, hiff⟩ := handleSegment_run I1 hcl1 j hj1 (by rw [e1, e2]; exact hj2)
+  rw [genuine_congr a _ D seg j e1 e3] at hrun2
+  rw [e1] at I2 hiff
+  have hsn : (a.run (idxs.map (toDlv a.n))).deliver (toDlv a.n j) = a.run ((idxs ++ [j]).map (toDlv a.n)) := by
+    rw [List.map_append, List.map_singleton, run_snoc]
+  rw [hsn] at I2 hiff
+  refine ⟨outs, u1, d1, out, u2, d2, hrun1, hrun2, I2, ?_⟩
+  rw [hiff]
+  have hp := complete_iff_peel_partial a.n a.parLen a.rowOf I.rows ((idxs ++ [j]).map (toDlv a.n))
+  rw [← hinit] at hp
+  rw [hp]
+
+/-- **naive_eq_orig** (naive side: flash-level model; original side: its mask-level machine — `_partial`: the
+    flash-level refinement of the *original* crate's `write_segment` + `repair_step` loop to `Abs.deliver`, i.e. the
+    analogue of `handleSegment_run` for `Fuota.Orig`, is not proved; `orig_step_is_abs` is its decision half and suite
+    D8 compares the two crates on the same deliveries).  In the setting of `complete_iff_peel`, when every coded index
+    delivered lies inside both scans, the naive model answers `FirmwareComplete` at fragment `j` exactly when `j` is new
+    and the original crate's machine (which scans `lenOrig` = 16384 parity indices) has all data fragments. -/
+theorem naive_eq_orig_model_partial (cfg : Naive.Cfg) (u : Naive.Upd) (d : Dev) (a : Abs) (D : Nat → List Nat) (seg : Nat)
+    (I : NInv cfg u d a D seg) (hfw : a.fw = 0) (hpar : a.par = 0) (idxs : List Nat) (j : Nat) (lenOrig : Nat)
+    (hall : ∀ i ∈ idxs, 1 ≤ i ∧ i ≤ a.n + a.parLen) (hj1 : 1 ≤ j) (hj2 : j ≤ a.n + a.parLen)
+    (hboth : ∀ p, Dlv.coded p ∈ (idxs ++ [j]).map (toDlv a.n) → p < a.parLen ∧ p < lenOrig) :
+    ∃ outs u1 d1 out u2 d2,
+      (deliverAll cfg a D seg idxs).run (u, d) = (.ok outs, (u1, d1)) ∧
+      (Naive.handleSegment cfg j (genuine a D seg j)).run (u1, d1) = (.ok out, (u2, d2)) ∧
+      (out = Naive.Outcome.complete ↔
+        (present (a.run (idxs.map (toDlv a.n))) j = false ∧
+          ∀ i, i < a.n →
+            ((Abs.init a.n lenOrig a.rowOf).run ((idxs ++ [j]).map (toDlv a.n))).fw.testBit i = true)) := by
+  have hinit := abs_eq_init a hfw hpar
+  have hcl : a.step = none := step_none_of_nopar (fun p _ => by rw [hpar]; simp)
+  obtain ⟨outs, u1, d1, hrun1, _, I1, hcl1⟩ := deliverAll_run a idxs u d a I hcl rfl rfl rfl hall
+  obtain ⟨e1, e2, e3, _⟩ := run_fields a (idxs.map (toDlv a.n))
+  obtain ⟨out, u2, d2, hrun2, _, _, hiff⟩ := handleSegment_run I1 hcl1 j hj1 (by rw [e1, e2]; exact hj2)
+  rw [genuine_congr a _ D seg j e1 e3] at hrun2
+  rw [e1] at hiff
+  have hsn : (a.run (idxs.map (toDlv a.n))).deliver (toDlv a.n j) = a.run ((idxs ++ [j]).map (toDlv a.n)) := by
+    rw [List.map_append, List.map_singleton, run_snoc]
+  rw [hsn] at hiff
+  refine ⟨outs, u1, d1, out, u2, d2, hrun1, hrun2, ?_⟩
+  rw [hiff]
+  have hs : Same (Abs.init a.n a.parLen a.rowOf) (Abs.init a.n lenOrig a.rowOf) := ⟨rfl, rfl, rfl, rfl⟩
+  have hb : Bnd (Abs.init a.n a.parLen a.rowOf) (Abs.init a.n lenOrig a.rowOf) := by
+    intro p hp; simp [Abs.init] at hp
+  have := run_same hs hb ((idxs ++ [j]).map (toDlv a.n)) hboth
+  rw [← hinit] at this
+  rw [this.2.2.1]
+
+/-- **`handle_segment` of the naive model refines the mask-level machine** (the flash-level hypothesis of the former
+    `_partial` theorems, discharged): see `Fuota.V1.handleSegment_run`. -/
+theorem naive_handle_segment_refines {cfg : Naive.Cfg} {u : Naive.Upd} {d : Dev} {a : Abs} {D : Nat → List Nat} {seg : Nat}
+    (I : NInv cfg u d a D seg) (hcl : a.step = none) (idx1 : Nat) (h1 : 1 ≤ idx1) (hn : idx1 ≤ a.n + a.parLen) :
+    ∃ out u' d', (Naive.handleSegment cfg idx1 (genuine a D seg idx1)).run (u, d) = (.ok out, (u', d')) ∧
+      NInv cfg u' d' (a.deliver (toDlv a.n idx1)) D seg ∧ (a.deliver (toDlv a.n idx1)).step = none ∧
+      (out = Naive.Outcome.complete ↔
+        (present a idx1 = false ∧ ∀ i, i < a.n → (a.deliver (toDlv a.n idx1)).fw.testBit i = true)) :=
+  handleSegment_run I hcl idx1 h1 hn
+
+/-- **`start_update` establishes the invariant** (non-vacuity of `NInv`, and the starting point of
+    `complete_iff_peel`): see `Fuota.V1.naive_start_establishes`.  `hrows` — every parity index has a row — is what
+    `Fuota.C10.terminates` provides without `force-full-r`. -/
+theorem naive_start_establishes (cfg : Naive.Cfg) (hc : cfg.clampParity = true) (nslots S sz n : Nat) (d : Dev)
+    (D : Nat → List Nat) (hG : Good d) (hwf : FlashAdapters.WF d.flash) (hdev : nslots * S ≤ d.flash.size)
+    (hb0 : 0 < d.flash.block) (hdiv : S % d.flash.block = 0) (hn2 : 2 ≤ nslots) (hS32 : S < 4294967296)
+    (hgeo : Updater.reasonablySized S sz n = .ok ())
+    (hrows : ∀ p, p < Naive.parityCount cfg S sz →
+      (Lfdbt.getParityMatrixRow cfg.ffr ((p + 1) % 2 ^ 32) n).isSome = true)
+    (hDl : ∀ i, i < n → (D i).length = sz) (hDb : ∀ i, i < n → Updater.IsBytes (D i)) :
+    ∃ u d', (Naive.startUpdate cfg nslots S sz n).run d = (.ok u, d') ∧ NInv cfg u d' (naiveInit cfg S sz n) D sz :=
+  V1.naive_start_establishes cfg hc nslots S sz n d D hG hwf hdev hb0 hdiv hn2 hS32 hgeo hrows hDl hDb
+
+/-- **complete_iff_peel, whole session**: `start_update` on any device without armed injection, then any sequence
+    of genuine fragments, then fragment `j` — see `complete_iff_peel`. -/
+theorem complete_iff_peel_session (cfg : Naive.Cfg) (hc : cfg.clampParity = true) (nslots S sz n : Nat) (d : Dev)
+    (D : Nat → List Nat) (hG : Good d) (hwf : FlashAdapters.WF d.flash) (hdev : nslots * S ≤ d.flash.size)
+    (hb0 : 0 < d.flash.block) (hdiv : S % d.flash.block = 0) (hn2 : 2 ≤ nslots) (hS32 : S < 4294967296)
+    (hgeo : Updater.reasonablySized S sz n = .ok ())
+    (hrows : ∀ p, p < Naive.parityCount cfg S sz →
+      (Lfdbt.getParityMatrixRow cfg.ffr ((p + 1) % 2 ^ 32) n).isSome = true)
+    (hDl : ∀ i, i < n → (D i).length = sz) (hDb : ∀ i, i < n → Updater.IsBytes (D i))
+    (idxs : List Nat) (j : Nat) (hall : ∀ i ∈ idxs, 1 ≤ i ∧ i ≤ n + Naive.parityCount cfg S sz) (hj1 : 1 ≤ j)
+    (hj2 : j ≤ n + Naive.parityCount cfg S sz) :
+    ∃ u0 d0 outs u1 d1 out u2 d2,
+      (Naive.startUpdate cfg nslots S sz n).run d = (.ok u0, d0) ∧
+      (deliverAll cfg (naiveInit cfg S sz n) D sz idxs).run (u0, d0) = (.ok outs, (u1, d1)) ∧
+      (Naive.handleSegment cfg j (genuine (naiveInit cfg S sz n) D sz j)).run (u1, d1) = (.ok out, (u2, d2)) ∧
+      (out = Naive.Outcome.complete ↔
+        (present ((naiveInit cfg S sz n).run (idxs.map (toDlv n))) j = false ∧
+          ∀ T, Closed n (Naive.parityCount cfg S sz) (naiveInit cfg S sz n).rowOf
+              (addCoded 0 ((idxs ++ [j]).map (toDlv n))) T →
+            Sub (addData 0 ((idxs ++ [j]).map (toDlv n))) T → ∀ i, i < n → T.testBit i = true)) := by
+  obtain ⟨u0, d0, hrun0, I0⟩ := V1.naive_start_establishes cfg hc nslots S sz n d D hG hwf hdev hb0 hdiv hn2 hS32 hgeo
+    hrows hDl hDb
+  obtain ⟨outs, u1, d1, out, u2, d2, h1, h2, _, h4⟩ := complete_iff_peel cfg u0 d0 (naiveInit cfg S sz n) D sz I0 rfl rfl
+    idxs j hall hj1 hj2
+  exact ⟨u0, d0, outs, u1, d1, out, u2, d2, hrun0, h1, h2, h4⟩
 
 /-! ## non-vacuity -/
 
